@@ -2,6 +2,7 @@ package rules
 
 import (
 	"go/token"
+	"strings"
 
 	"golang.org/x/tools/go/ssa"
 
@@ -15,6 +16,10 @@ func rootedIn(v ssa.Value, name string, depth int) bool {
 	for i := 0; i < depth && v != nil; i++ {
 		switch x := v.(type) {
 		case *ssa.Parameter:
+			if r := ir.Resolve(x); r != ssa.Value(x) {
+				v = r // a helper's parameter stands for the caller's argument
+				continue
+			}
 			return x.Name() == name
 		case *ssa.UnOp:
 			v = x.X
@@ -39,6 +44,32 @@ func rootedIn(v ssa.Value, name string, depth int) bool {
 
 // witnessFromParam: the witness literal's scripts are decoded from fields of the message parameter.
 func witnessFromParam(v ssa.Value, msgName string) bool {
+	// built by a module helper from its arguments: every non-nil witness it returns qualifies
+	if cl, idx := ir.CallOf(v); cl != nil {
+		h := cl.Common().StaticCallee()
+		if h == nil || len(h.Blocks) == 0 || h.Pkg == nil || !strings.HasPrefix(h.Pkg.Pkg.Path(), ir.Mod) {
+			return false
+		}
+		if idx < 0 {
+			idx = 0
+		}
+		defer ir.BindParams(h, cl.Common().Args)()
+		n := 0
+		for _, b := range h.Blocks {
+			ret, isRet := b.Instrs[len(b.Instrs)-1].(*ssa.Return)
+			if !isRet || idx >= len(ret.Results) {
+				continue
+			}
+			if k, isK := ret.Results[idx].(*ssa.Const); isK && k.IsNil() {
+				continue
+			}
+			if !witnessFromParam(ret.Results[idx], msgName) {
+				return false
+			}
+			n++
+		}
+		return n > 0
+	}
 	al, ok := ir.Strip(v).(*ssa.Alloc)
 	if !ok {
 		return false
@@ -137,7 +168,26 @@ func checkNeoFamily(c *core.Ctx, prop string) {
 		}
 		// m ≡ N − ⌊(N−1)/3⌋ over N = len(pubKeys)
 		keys := cms.Common().Args[1]
-		e, err := eng.ExtractExpr(cms.Common().Args[0], eng.IsLenOf(func(v ssa.Value) bool { return v == keys || ir.Strip(v) == ir.Strip(keys) }))
+		lenKeys := eng.IsLenOf(func(v ssa.Value) bool { return v == keys || ir.Strip(v) == ir.Strip(keys) })
+		e, err := eng.ExtractExpr(cms.Common().Args[0], func(v ssa.Value) bool {
+			if lenKeys(v) {
+				return true
+			}
+			// keys = make([]T, L, …): L is its length
+			ms, isMS := ir.Strip(keys).(*ssa.MakeSlice)
+			if !isMS {
+				return false
+			}
+			if ir.Strip(v) == ir.Strip(ms.Len) {
+				return true
+			}
+			a, okA := ir.Strip(v).(*ssa.Call)
+			b, okB := ir.Strip(ms.Len).(*ssa.Call)
+			if okA && okB && isBuiltinLen(a) && isBuiltinLen(b) {
+				return ir.Strip(a.Common().Args[0]) == ir.Strip(b.Common().Args[0])
+			}
+			return false
+		})
 		if err != nil {
 			c.Broken(prop+".neo-tracked-consensus", fn, "m of the state-validator multisig", c.P.Rel(cms.Pos()), err.Error())
 		} else {
@@ -174,4 +224,9 @@ func checkNeoFamily(c *core.Ctx, prop string) {
 		eng.Dominates(c, prop+".neo-tracked-consensus", fn, eq, succ, "nil return", nil)
 		eng.Dominates(c, prop+".neo-witness", fn, witnessGuard, succ, "nil return", nil)
 	}
+}
+
+func isBuiltinLen(cl *ssa.Call) bool {
+	bi, ok := cl.Common().Value.(*ssa.Builtin)
+	return ok && bi.Name() == "len"
 }
